@@ -57,11 +57,14 @@ LoadPost ==
 \* parsed text with trimmed SetMeta values is a fixed point of save + reload; a value set with blanks around it
 \* comes back trimmed (and is then a fixed point)
 Trimmed(s) == \A i \in 1..Len(s) : TrimOf(s[i][2]) = s[i][2]
+\* (a legacy key name can only get into a store through set_meta - no parser produces one - and is renamed by the
+\* next reload: found by TLC on the thorough configuration, whose Keys include "Area_ref")
+NoLegacyIn(s) == \A i \in 1..Len(s) : Legacy(s[i][1]) = s[i][1]
 ReloadPost ==
   last.op = "reload" =>
     /\ Len(store) = Len(prev)
-    /\ \A i \in 1..Len(store) : store[i][1] = prev[i][1] /\ store[i][2] = TrimOf(prev[i][2])
-    /\ (Trimmed(prev) => store = prev)
+    /\ \A i \in 1..Len(store) : store[i][1] = Legacy(prev[i][1]) /\ store[i][2] = TrimOf(prev[i][2])
+    /\ (Trimmed(prev) /\ NoLegacyIn(prev) => store = prev)
     /\ Reload(store) = store
 \* no operation produces a legacy key name (they only exist in files)
 NoLegacyKey == \A i \in 1..Len(store) : store[i][1] \notin {"Localizacion", "Area_ref", "kexp"} \/ store[i][1] \in Keys
